@@ -91,3 +91,7 @@ mod tests {
         assert_eq!(pairing_code, "26318621095");
     }
 }
+
+#[cfg(any(kani, verif_replay))]
+#[path = "/verif/kani/code.rs"]
+pub(crate) mod verif_kani_code;
